@@ -156,16 +156,34 @@ def chk_builds(inp):
                                    int((M != ref_nd).sum()) if M.shape == ref_nd.shape else list(M.shape), 0)
                     if not numpy.array_equal(gs, gs0):
                         return bad("make_covariance_matrix modified the guide-star position array it was configured with (state carried into the next build)")
+    if not (inp and inp.get("no_schedules")):
+        # low (Rayleigh) laser guide stars with turbulence above them: the code works with negative meta sub-aperture sizes there and still builds a matrix
+        def rayleigh(threads):
+            rng = numpy.random.default_rng(31)
+            masks = [aotools.circle(2.5, 5), (rng.random((5, 5)) > 0.3).astype(float), aotools.circle(2, 5)]
+            return aotools.CovarianceMatrix(3, masks, 4.0, [0.8] * 3, [15000., 12000., 0], [[10, 0], [-5, 8], [3, -12]], [5e-7, 6e-7, 5.5e-7], 3, numpy.array([0., 8000., 17000.]),
+                                            [0.2, 0.4, 0.3], [25., 15., 30.], threads)
+        refr = rayleigh(1).make_covariance_matrix().copy()
+        for t in (2, 3):
+            M = rayleigh(t).make_covariance_matrix()
+            if M.shape != refr.shape or not numpy.array_equal(M.view("int32"), refr.view("int32")):
+                return bad("guide stars at 15 / 12 km, a layer at 17 km, %d workers: matrix is not bit-identical to the single-process one" % t, int((M.view("int32") != refr.view("int32")).sum()) if M.shape == refr.shape else list(M.shape), 0)
     for kind in kinds:
         ref = system(kind, 1).make_covariance_matrix().copy()
-        for seq in ([1, 1], [2, 2], [1, 2, 1], [3, 1, 1, 2]):
+        for seq in ([1, 1], [2, 2], [1, 2, 1], [3, 1, 1, 2], [2, 1, 2], [1, 2, 1, 3]):
             cm = system(kind, seq[0])
+            held = []
             for k, t in enumerate(seq):
                 cm.threads = t
                 M = cm.make_covariance_matrix()
                 if M.shape != ref.shape or not numpy.array_equal(M, ref):
                     return bad("system '%s': build %d of the sequence threads=%s is not bit-identical to the single-process matrix of a fresh object" % (kind, k, seq),
                                int((M != ref).sum()) if M.shape == ref.shape else list(M.shape), 0)
+                held.append(M)          # the caller keeps every matrix it was given (no copy): a later build must not change it
+                for j, Mj in enumerate(held):
+                    if not numpy.array_equal(Mj, ref):
+                        return bad("system '%s', sequence threads=%s: the matrix returned by build %d is no longer the single-process matrix after build %d (a rebuild wrote into the array an earlier build returned)" % (kind, seq, j, k),
+                                   int((Mj != ref).sum()), 0)
 
 
 CLAUSES = {"builds": (chk_builds, lambda t, s: [{"kind": "equal"}] + [{"kind": k, "no_schedules": True} for k in ("unequal-lgs", "ngs-offaxis")]), "assembly": (chk_builds, lambda t, s: [{"kind": "unequal-lgs"}])}
